@@ -307,8 +307,8 @@ func (i *interpreter) symBinop(fr *frame, op token.Token, t types.Type, x, y val
 
 type runtimeError string
 
-func (r runtimeError) Error() string   { return "runtime error: " + string(r) }
-func (r runtimeError) RuntimeError()   {}
+func (r runtimeError) Error() string { return "runtime error: " + string(r) }
+func (r runtimeError) RuntimeError() {}
 
 func (i *interpreter) symShift(op token.Token, k types.BasicKind, a *Term, y value) value {
 	e := i.ex
